@@ -33,6 +33,11 @@ Proof.
     apply hwalk_suffix in E. destruct E as [p Hp]. rewrite Hp, app_length. lia.
 Qed.
 
+Lemma hwalk_leaf e bs : hwalk (HLeaf e) bs = Some (e, bs).
+Proof. destruct bs; reflexivity. Qed.
+Lemma hwalk_empty bs : hwalk HEmpty bs = None.
+Proof. destruct bs; reflexivity. Qed.
+
 (* prefix relation on codewords *)
 Fixpoint is_prefix (a b : list bool) : bool :=
   match a, b with
@@ -45,42 +50,381 @@ Definition unrelated (a b : list bool) : Prop := is_prefix a b = false /\ is_pre
 (* [decodes t w e]: walking t along w (followed by anything) ends in leaf e having consumed exactly w *)
 Definition decodes (t : htree) (w : list bool) (e : Z) : Prop := forall rest, hwalk t (w ++ rest) = Some (e, rest).
 
+Definition child (t : htree) (b : bool) : htree :=
+  match t with HNode z o => if b then o else z | _ => HEmpty end.
+
+Lemma hwalk_node_step t b l : (forall e, t <> HLeaf e) -> hwalk t (b :: l) = hwalk (child t b) l.
+Proof. intros H. destruct t as [|e0|z o]; cbn; [rewrite hwalk_empty; reflexivity|exfalso; apply (H e0); reflexivity|reflexivity]. Qed.
+
+Lemma hinsert_step t b r e l : hwalk (hinsert t (b :: r) e) (b :: l) = hwalk (hinsert (child t b) r e) l.
+Proof. destruct t as [|e0|z o], b; reflexivity. Qed.
+Lemma hinsert_other t b r e l : hwalk (hinsert t (b :: r) e) (negb b :: l) = hwalk (child t (negb b)) l.
+Proof. destruct t as [|e0|z o], b; cbn; try rewrite hwalk_empty; reflexivity. Qed.
+
+Lemma decodes_leaf_nil e0 v e' : decodes (HLeaf e0) v e' -> v = [].
+Proof.
+  intros H. specialize (H []). rewrite hwalk_leaf in H. inversion H as [[E1 E2]].
+  destruct v; [reflexivity|]. exfalso. rewrite app_nil_r in E2. discriminate.
+Qed.
+
 Lemma hinsert_decodes_new : forall w t e, w <> [] ->
   (forall p e', p <> w -> is_prefix p w = true -> ~ decodes t p e') ->
   decodes (hinsert t w e) w e.
 Proof.
   induction w as [|b w IH]; intros t e Hne Hfree rest; [congruence|].
+  assert (forall e0, t <> HLeaf e0) as Hnl.
+  { intros e0 ->. apply (Hfree [] e0); [discriminate|reflexivity|]. intros r. apply hwalk_leaf. }
+  cbn [app]. rewrite hinsert_step.
   destruct w as [|b2 w2].
-  - (* last bit: the child becomes the leaf *)
-    cbn [hinsert app]. destruct t as [|e0|z o]; destruct b; cbn; reflexivity.
-  - assert (forall t', (forall p e', p <> b2 :: w2 -> is_prefix p (b2 :: w2) = true -> ~ decodes t' p e') ->
-                      decodes (hinsert t' (b2 :: w2) e) (b2 :: w2) e) as IH' by (intros t' H; apply IH; [discriminate|exact H]).
-    cbn [hinsert]. destruct t as [|e0|z o].
-    + destruct b; cbn [app hwalk]; apply IH'; intros p e' _ _ Hd; specialize (Hd []); destruct p; cbn in Hd; discriminate.
-    + (* a leaf at the root would decode the empty word, a proper prefix of w *)
-      exfalso. apply (Hfree [] e0); [discriminate|reflexivity|]. intros r. destruct r; reflexivity.
-    + destruct b; cbn [app hwalk].
-      * apply IH'. intros p e' Hp1 Hp2 Hd. apply (Hfree (true :: p) e'); [congruence|cbn; rewrite Hp2; reflexivity|].
-        intros r. cbn. apply Hd.
-      * apply IH'. intros p e' Hp1 Hp2 Hd. apply (Hfree (false :: p) e'); [congruence|cbn; rewrite Hp2; reflexivity|].
-        intros r. cbn. apply Hd.
+  - cbn [hinsert app]. apply hwalk_leaf.
+  - apply IH; [discriminate|].
+    intros p e' Hp1 Hp2 Hd. apply (Hfree (b :: p) e'); [congruence|cbn; rewrite Hp2; destruct b; reflexivity|].
+    intros r. cbn [app]. rewrite hwalk_node_step by exact Hnl. apply Hd.
 Qed.
 
 Lemma hinsert_preserves : forall w t e v e', w <> [] -> unrelated v w -> decodes t v e' -> decodes (hinsert t w e) v e'.
 Proof.
   induction w as [|b w IH]; intros t e v e' Hne [U1 U2] Hd rest; [congruence|].
   destruct v as [|c v]; [cbn in U1; discriminate|].
-  specialize (Hd rest) as Hd0. cbn [app] in Hd0.
-  destruct t as [|e0|z o].
-  - cbn in Hd0. discriminate.
-  - (* a leaf at the root decodes only the empty word *)
-    cbn in Hd0. inversion Hd0 as [[E1 E2]]. exfalso. clear -E2.
-    assert (length (c :: v ++ rest) = length rest) as Hl by (rewrite E2; reflexivity). cbn in Hl. rewrite app_length in Hl. lia.
-  - cbn [is_prefix] in U1, U2.
+  assert (forall e0, t <> HLeaf e0) as Hnl.
+  { intros e0 ->. apply decodes_leaf_nil in Hd. discriminate. }
+  assert (decodes (child t c) v e') as Hdc.
+  { intros r. specialize (Hd r). cbn [app] in Hd. rewrite hwalk_node_step in Hd by exact Hnl. exact Hd. }
+  cbn [app]. cbn [is_prefix] in U1, U2.
+  destruct (Bool.eqb c b) eqn:Ecb.
+  - apply eqb_prop in Ecb. subst c. rewrite hinsert_step.
+    assert (is_prefix w v = false) as U2' by (destruct b; cbn [Bool.eqb andb] in U2; exact U2).
+    cbn [andb] in U1.
     destruct w as [|b2 w2].
-    + (* w = [b]: v starts with the other bit *)
-      cbn [hinsert]. destruct b, c; cbn in U1, U2; try discriminate; cbn [app hwalk]; cbn in Hd0; exact Hd0.
-    + cbn [hinsert]. destruct b, c; cbn [app hwalk]; cbn in Hd0; cbn [Bool.eqb andb] in U1, U2; try exact Hd0.
-      * apply (IH o e v e'); [discriminate|split; assumption|]. intros r. specialize (Hd r). cbn in Hd. exact Hd.
-      * apply (IH z e v e'); [discriminate|split; assumption|]. intros r. specialize (Hd r). cbn in Hd. exact Hd.
+    + cbn in U2'. discriminate.
+    + apply IH; [discriminate|split; [exact U1|exact U2']|exact Hdc].
+  - assert (c = negb b) as -> by (destruct c, b; cbn in Ecb; try discriminate; reflexivity).
+    rewrite hinsert_other. apply Hdc.
+Qed.
+
+(* [path_free t w]: w can be inserted into t without meeting a leaf or ending on an inner node *)
+Fixpoint path_free (t : htree) (w : list bool) : bool :=
+  match t with
+  | HEmpty => true
+  | HLeaf _ => false
+  | HNode z o => match w with [] => false | b :: r => path_free (if b then o else z) r end
+  end.
+
+Lemma path_free_decodes : forall w t e, w <> [] -> path_free t w = true -> decodes (hinsert t w e) w e.
+Proof.
+  induction w as [|b w IH]; intros t e Hne Hp rest; [congruence|].
+  cbn [app]. rewrite hinsert_step.
+  destruct w as [|b2 w2]; [cbn [hinsert app]; apply hwalk_leaf|].
+  apply IH; [discriminate|].
+  destruct t as [|e0|z o]; cbn in *; [reflexivity|discriminate|destruct b; exact Hp].
+Qed.
+
+Lemma path_free_hinsert : forall w t e v, w <> [] -> unrelated v w -> path_free t v = true -> path_free (hinsert t w e) v = true.
+Proof.
+  induction w as [|b w IH]; intros t e v Hne [U1 U2] Hp; [congruence|].
+  destruct v as [|c v]; [cbn in U1; discriminate|].
+  cbn [is_prefix] in U1, U2.
+  assert (forall t', path_free t' v = true -> c = b -> path_free (hinsert t' w e) v = true) as Hrec.
+  { intros t' Hp' ->. rewrite eqb_reflx in U1, U2. cbn [andb] in U1, U2.
+    destruct w as [|b2 w2]; [destruct v; cbn in U2; discriminate|].
+    apply IH; [discriminate|split; assumption|exact Hp']. }
+  destruct t as [|e0|z o]; [|cbn in Hp; discriminate|].
+  - cbn [hinsert]. destruct b, c; cbn [path_free]; try reflexivity; apply Hrec; reflexivity.
+  - cbn [hinsert]. cbn [path_free] in Hp. destruct b, c; cbn [path_free]; try exact Hp; apply Hrec; try reflexivity; exact Hp.
+Qed.
+
+(* all codewords of a prefix-free table decode to their entry in the tree built from the table *)
+Definition word_of (w : Z * Z * Z) : list bool := let '(e, l, c) := w in cw_bits (Z.to_nat l) c.
+Definition entry_of (w : Z * Z * Z) : Z := let '(e, l, c) := w in e.
+Definition ins (t : htree) (w : Z * Z * Z) : htree := let '(e, l, c) := w in hinsert t (cw_bits (Z.to_nat l) c) e.
+
+Fixpoint prefix_free (ws : list (Z * Z * Z)) : Prop :=
+  match ws with
+  | [] => True
+  | w :: rest => word_of w <> [] /\ Forall (fun w' => unrelated (word_of w') (word_of w)) rest /\ prefix_free rest
+  end.
+
+Lemma unrelated_sym a b : unrelated a b -> unrelated b a.
+Proof. intros [H1 H2]. split; assumption. Qed.
+
+Lemma fold_ins_ok : forall ws t done,
+  (forall w, In w ws -> path_free t (word_of w) = true) ->
+  (forall d, In d done -> decodes t (word_of d) (entry_of d)) ->
+  (forall d w, In d done -> In w ws -> unrelated (word_of d) (word_of w)) ->
+  prefix_free ws ->
+  forall x, In x done \/ In x ws -> decodes (fold_left ins ws t) (word_of x) (entry_of x).
+Proof.
+  induction ws as [|w ws IH]; intros t done Hpf Hdone Hun Hfree x Hx.
+  - destruct Hx as [Hx|[]]. cbn. apply Hdone, Hx.
+  - destruct Hfree as (Hne & Hall & Hfree'). rewrite Forall_forall in Hall.
+    cbn [fold_left].
+    assert (ins t w = hinsert t (word_of w) (entry_of w)) as Et by (unfold ins, word_of, entry_of; destruct w as [[e l] c]; reflexivity).
+    apply (IH (ins t w) (w :: done)).
+    + intros w0 Hin. rewrite Et. apply path_free_hinsert; [exact Hne|apply Hall, Hin|apply Hpf; right; exact Hin].
+    + intros d [<-|Hd].
+      * rewrite Et. apply path_free_decodes; [exact Hne|apply Hpf; left; reflexivity].
+      * rewrite Et. apply hinsert_preserves; [exact Hne|apply Hun; [exact Hd|left; reflexivity]|apply Hdone, Hd].
+    + intros d w0 [<-|Hd] Hin.
+      * apply unrelated_sym, Hall, Hin.
+      * apply Hun; [exact Hd|right; exact Hin].
+    + exact Hfree'.
+    + destruct Hx as [Hx|[<-|Hx]]; [left; right; exact Hx|left; left; reflexivity|right; exact Hx].
+Qed.
+
+Lemma path_free_empty w : path_free HEmpty w = true.
+Proof. reflexivity. Qed.
+
+(* decode (encode e) = e for every prefix-free codeword table: what the
+   encoder writes with vorbis_book_encode, the tree walk reads back *)
+Theorem build_tree_decodes : forall ws, prefix_free ws ->
+  forall w rest, In w ws -> hwalk (build_tree ws) (word_of w ++ rest) = Some (entry_of w, rest).
+Proof.
+  intros ws Hpf w rest Hin.
+  assert (build_tree ws = fold_left ins ws HEmpty) as -> by reflexivity.
+  apply (fold_ins_ok ws HEmpty []); [intros; apply path_free_empty|intros d []|intros d w0 []|exact Hpf|right; exact Hin].
+Qed.
+
+(* ------------------------------------------------------------------ *)
+(* residue index arithmetic: every partition the decode loops address   *)
+(* lies inside the half-block vectors (the CVE class of res0.c)         *)
+(* ------------------------------------------------------------------ *)
+(* formats 0 and 1: partition i of channel vector [0, halfn) *)
+Lemma res01_partition_in_bounds begin end_ grouping halfn i :
+  0 <= begin -> 0 < grouping -> 0 <= halfn ->
+  let lim := if end_ <? halfn then end_ else halfn in
+  let n := lim - begin in
+  0 < n -> 0 <= i < Z.quot n grouping ->
+  0 <= begin + i * grouping /\ begin + i * grouping + grouping <= halfn.
+Proof.
+  intros Hb Hg Hh lim n Hn Hi. rewrite Z.quot_div_nonneg in Hi by lia.
+  assert (lim <= halfn) by (unfold lim; destruct (end_ <? halfn) eqn:E; lia).
+  assert ((i + 1) * grouping <= n) by (assert (i + 1 <= n / grouping) by lia; nia).
+  split; nia.
+Qed.
+
+(* format 2: the interleaved partition i touches indices < m of each of the ch vectors, m <= halfn *)
+Lemma res2_partition_in_bounds begin end_ grouping halfn ch i :
+  0 <= begin -> 0 < grouping -> 0 <= halfn -> 0 < ch ->
+  let mx := halfn * ch in
+  let lim := if end_ <? mx then end_ else mx in
+  let n := lim - begin in
+  0 < n -> 0 <= i < Z.quot n grouping ->
+  let off := i * grouping + begin in
+  0 <= Z.quot off ch /\ Z.quot (off + grouping) ch <= halfn.
+Proof.
+  intros Hb Hg Hh Hc mx lim n Hn Hi off. rewrite Z.quot_div_nonneg in Hi by lia.
+  assert (lim <= mx) by (unfold lim; destruct (end_ <? mx) eqn:E; lia).
+  assert ((i + 1) * grouping <= n) by (assert (i + 1 <= n / grouping) by lia; nia).
+  assert (0 <= off) by (unfold off; nia).
+  rewrite !Z.quot_div_nonneg by lia.
+  split; [apply Z.div_pos; lia|].
+  assert (off + grouping <= halfn * ch) by (unfold off, mx in *; nia).
+  apply Z.div_le_upper_bound; lia.
+Qed.
+
+(* format 0's interleave: a[o+j], o = i*step, j < step, step = n/dim stays below n *)
+Lemma res0_interleave_in_bounds n dim i j :
+  0 < dim -> 0 <= n -> 0 <= i < dim -> 0 <= j < Z.quot n dim -> 0 <= i * Z.quot n dim + j < n.
+Proof.
+  intros Hd Hn Hi Hj. rewrite Z.quot_div_nonneg in * by lia.
+  assert (dim * (n / dim) <= n) by (apply Z.mul_div_le; lia). nia.
+Qed.
+
+(* vectors never change length *)
+Lemma add_at_length : forall off vals vec, length (add_at off vals vec) = length vec.
+Proof.
+  induction off as [|k IH]; intros vals vec.
+  - revert vals; induction vec as [|x r IHr]; intros vals; [reflexivity|]. destruct vals as [|v vs]; [reflexivity|]. cbn. f_equal. apply IHr.
+  - destruct vec as [|x r]; [reflexivity|]. cbn. f_equal. apply IH.
+Qed.
+
+(* ------------------------------------------------------------------ *)
+(* floor 1                                                             *)
+(* ------------------------------------------------------------------ *)
+Lemma floor1_curve_length n mult rangebits posts fit : 0 <= n ->
+  length (floor1_curve n mult rangebits posts fit) = Z.to_nat n.
+Proof.
+  intros Hn. unfold floor1_curve.
+  destruct (f1_lines n (0 :: 2 ^ rangebits :: posts) fit mult (tl (forward_index (0 :: 2 ^ rangebits :: posts))) 0 (clamp255 (zn fit 0 * mult))) as [[l hx] ly].
+  rewrite app_length, repeat_length, firstn_length. lia.
+Qed.
+
+Lemma clamp255_range y : 0 <= clamp255 y <= 255.
+Proof. unfold clamp255. destruct (y <? 0) eqn:E1; [lia|]. destruct (y >? 255) eqn:E2; lia. Qed.
+
+Lemma lset_length {A} : forall (l : list A) j v, length (lset l j v) = length l.
+Proof. induction l as [|h t IH]; intros [|j] v; cbn; auto. Qed.
+
+Lemma f1_unwrap_length : forall fuel pl q i fit, length (f1_unwrap fuel pl q i fit) = length fit.
+Proof.
+  induction fuel as [|f IH]; intros pl q i fit; [reflexivity|]. cbn [f1_unwrap].
+  destruct (i >=? Z.of_nat (length pl)); [reflexivity|].
+  destruct (neighbors pl i) as [lo hi]. rewrite IH.
+  destruct (negb (zn fit i =? 0)); rewrite ?lset_length; reflexivity.
+Qed.
+
+Lemma rd_list_length : forall n w bs l r, rd_list n w bs = Some (l, r) -> length l = n.
+Proof.
+  induction n as [|k IH]; intros w bs l r H; cbn [rd_list] in H.
+  - inversion H; reflexivity.
+  - destruct (rd w bs) as [[v r1]|]; [|discriminate].
+    destruct (rd_list k w r1) as [[l1 r2]|] eqn:E; [|discriminate].
+    inversion H; subst. cbn. f_equal. eapply IH; exact E.
+Qed.
+
+(* the post count of an accepted floor 1 never exceeds VIF_POSIT: fit_value[j+k] stays inside its posts+2 cells *)
+Lemma rd_posts_count : forall pc classes rb count bs posts r,
+  rd_posts pc classes rb count bs = Some (posts, r) ->
+  (forall c, 0 <= c_dim (cls classes c)) -> 0 <= count <= VIF_POSIT ->
+  count + Z.of_nat (length posts) <= VIF_POSIT.
+Proof.
+  induction pc as [|c rest IH]; intros classes rb count bs posts r H Hdim Hc; cbn [rd_posts] in H.
+  - inversion H; subst. cbn. lia.
+  - destruct (count + c_dim (cls classes c) >? VIF_POSIT) eqn:E; [discriminate|].
+    destruct (rd_list (Z.to_nat (c_dim (cls classes c))) rb bs) as [[l r1]|] eqn:E1; [|discriminate].
+    destruct (rd_posts rest classes rb (count + c_dim (cls classes c)) r1) as [[l2 r2]|] eqn:E2; [|discriminate].
+    inversion H; subst. apply rd_list_length in E1. pose proof (Hdim c) as Hdc.
+    apply IH in E2; [|exact Hdim|lia]. rewrite app_length. lia.
+Qed.
+
+(* ------------------------------------------------------------------ *)
+(* the bit reader                                                      *)
+(* ------------------------------------------------------------------ *)
+Lemma rd_acc_range : forall w bs k acc v r, 0 < k ->
+  rd_acc w bs k acc = Some (v, r) -> acc <= v <= acc + k * (2 ^ Z.of_nat w - 1) /\ (length r + w = length bs)%nat.
+Proof.
+  induction w as [|w IH]; intros bs k acc v r Hk H; cbn [rd_acc] in H.
+  - inversion H; subst. cbn. lia.
+  - destruct bs as [|b bs]; [discriminate|].
+    apply IH in H; [|lia]. destruct H as [H1 H2].
+    rewrite Nat2Z.inj_succ, Z.pow_succ_r by lia. cbn [length]. split; [|lia].
+    assert (0 < 2 ^ Z.of_nat w) by (apply Z.pow_pos_nonneg; lia).
+    destruct b; nia.
+Qed.
+Lemma rd_range w bs v r : rd w bs = Some (v, r) -> 0 <= v < 2 ^ Z.of_nat w /\ (length r + w = length bs)%nat.
+Proof. unfold rd. intros H. apply rd_acc_range in H; [|lia]. assert (0 < 2 ^ Z.of_nat w) by (apply Z.pow_pos_nonneg; lia). lia. Qed.
+
+(* ------------------------------------------------------------------ *)
+(* accepted set-up headers: every index the decoder will use is in range *)
+(* ------------------------------------------------------------------ *)
+Lemma rd_modes_wf : forall n maps bs l r, rd_modes n maps bs = Some (l, r) ->
+  length l = n /\ Forall (fun m => 0 <= md_mapping m < maps /\ (md_blockflag m = 0 \/ md_blockflag m = 1)) l.
+Proof.
+  induction n as [|k IH]; intros maps bs l r H; cbn [rd_modes] in H.
+  - inversion H; subst. split; [reflexivity|constructor].
+  - destruct (rd 1 bs) as [[bf r1]|] eqn:E1; [|discriminate].
+    destruct (rd 16 r1) as [[wt r2]|]; [|discriminate].
+    destruct (rd 16 r2) as [[t2 r3]|]; [|discriminate].
+    destruct (rd 8 r3) as [[mp r4]|] eqn:E4; [|discriminate].
+    destruct ((wt >=? 1) || (t2 >=? 1) || (mp >=? maps)) eqn:Ec; [discriminate|].
+    destruct (rd_modes k maps r4) as [[l1 r5]|] eqn:E5; [|discriminate].
+    inversion H; subst. apply IH in E5. destruct E5 as [L F].
+    apply rd_range in E1, E4. cbn [md_mapping md_blockflag]. split; [cbn; f_equal; exact L|].
+    constructor; [cbn; change (2 ^ Z.of_nat 1) with 2 in E1; lia|exact F].
+Qed.
+
+Lemma rd_coupling_wf : forall n ch bs l r, rd_coupling n ch bs = Some (l, r) ->
+  Forall (fun p => 0 <= fst p < ch /\ 0 <= snd p < ch /\ fst p <> snd p) l.
+Proof.
+  induction n as [|k IH]; intros ch bs l r H; cbn [rd_coupling] in H.
+  - inversion H; constructor.
+  - destruct (rd (ilogn (ch - 1)) bs) as [[m r1]|] eqn:E1; [|discriminate].
+    destruct (rd (ilogn (ch - 1)) r1) as [[a r2]|] eqn:E2; [|discriminate].
+    destruct ((m =? a) || (m >=? ch) || (a >=? ch)) eqn:Ec; [discriminate|].
+    destruct (rd_coupling k ch r2) as [[l1 r3]|] eqn:E3; [|discriminate].
+    inversion H; subst. apply IH in E3. apply rd_range in E1, E2.
+    constructor; [cbn; lia|exact E3].
+Qed.
+
+Lemma rd_mux_wf : forall n submaps bs l r, rd_mux n submaps bs = Some (l, r) ->
+  length l = n /\ Forall (fun v => 0 <= v < submaps) l.
+Proof.
+  induction n as [|k IH]; intros submaps bs l r H; cbn [rd_mux] in H.
+  - inversion H; split; [reflexivity|constructor].
+  - destruct (rd 4 bs) as [[v r1]|] eqn:E1; [|discriminate].
+    destruct (v >=? submaps) eqn:Ec; [discriminate|].
+    destruct (rd_mux k submaps r1) as [[l1 r2]|] eqn:E2; [|discriminate].
+    inversion H; subst. apply IH in E2. apply rd_range in E1. destruct E2 as [L F].
+    split; [cbn; f_equal; exact L|constructor; [lia|exact F]].
+Qed.
+
+Lemma rd_submaps_wf : forall n floors residues bs l r, rd_submaps n floors residues bs = Some (l, r) ->
+  length l = n /\ Forall (fun p => 0 <= fst p < floors /\ 0 <= snd p < residues) l.
+Proof.
+  induction n as [|k IH]; intros floors residues bs l r H; cbn [rd_submaps] in H.
+  - inversion H; split; [reflexivity|constructor].
+  - destruct (rd 8 bs) as [[t r0]|]; [|discriminate].
+    destruct (rd 8 r0) as [[f r1]|] eqn:E1; [|discriminate].
+    destruct (f >=? floors) eqn:Ef; [discriminate|].
+    destruct (rd 8 r1) as [[rs r2]|] eqn:E2; [|discriminate].
+    destruct (rs >=? residues) eqn:Er; [discriminate|].
+    destruct (rd_submaps k floors residues r2) as [[l1 r3]|] eqn:E3; [|discriminate].
+    inversion H; subst. apply IH in E3. apply rd_range in E1, E2. destruct E3 as [L F].
+    split; [cbn; f_equal; exact L|constructor; [cbn; lia|exact F]].
+Qed.
+
+Definition mapping_wf (channels floors residues : Z) (m : mapping) : Prop :=
+  1 <= m_submaps m <= 16 /\
+  length (m_mux m) = Z.to_nat channels /\ Forall (fun v => 0 <= v < m_submaps m) (m_mux m) /\
+  Forall (fun p => 0 <= fst p < channels /\ 0 <= snd p < channels /\ fst p <> snd p) (m_coupling m) /\
+  length (m_floor m) = Z.to_nat (m_submaps m) /\ length (m_residue m) = Z.to_nat (m_submaps m) /\
+  Forall (fun f => 0 <= f < floors) (m_floor m) /\ Forall (fun x => 0 <= x < residues) (m_residue m).
+
+Lemma repeat_forall {A} (P : A -> Prop) x n : P x -> Forall P (repeat x n).
+Proof. intros H. induction n; cbn; constructor; auto. Qed.
+
+Lemma unpack_mapping_wf channels floors residues bs m r :
+  unpack_mapping channels floors residues bs = Some (m, r) -> 0 < channels /\ mapping_wf channels floors residues m.
+Proof.
+  unfold unpack_mapping. intros H.
+  destruct (channels <=? 0) eqn:Ech; [discriminate|].
+  destruct (rd 1 bs) as [[b1 r1]|]; [|discriminate].
+  destruct (if b1 =? 1 then match rd 4 r1 with Some (s, r0) => Some (s + 1, r0) | None => None end else Some (1, r1)) as [[submaps r2]|] eqn:Es; [|discriminate].
+  assert (1 <= submaps <= 16) as Hsub.
+  { destruct (b1 =? 1); [|inversion Es; lia]. destruct (rd 4 r1) as [[s r0]|] eqn:E; [|discriminate]. inversion Es; subst.
+    apply rd_range in E. change (2 ^ Z.of_nat 4) with 16 in E. lia. }
+  destruct (rd 1 r2) as [[b2 r3]|]; [|discriminate].
+  destruct (if b2 =? 1 then match rd 8 r3 with Some (s, r0) => rd_coupling (Z.to_nat (s + 1)) channels r0 | None => None end else Some ([], r3)) as [[coupling r4]|] eqn:Ec; [|discriminate].
+  assert (Forall (fun p => 0 <= fst p < channels /\ 0 <= snd p < channels /\ fst p <> snd p) coupling) as Hc.
+  { destruct (b2 =? 1); [|inversion Ec; constructor]. destruct (rd 8 r3) as [[s r0]|]; [|discriminate]. eapply rd_coupling_wf; exact Ec. }
+  destruct (rd 2 r4) as [[reserved r5]|]; [|discriminate].
+  destruct (negb (reserved =? 0)); [discriminate|].
+  destruct (if submaps >? 1 then rd_mux (Z.to_nat channels) submaps r5 else Some (repeat 0 (Z.to_nat channels), r5)) as [[mux r6]|] eqn:Em; [|discriminate].
+  assert (length mux = Z.to_nat channels /\ Forall (fun v => 0 <= v < submaps) mux) as Hm.
+  { destruct (submaps >? 1); [eapply rd_mux_wf; exact Em|]. inversion Em; subst. split; [apply repeat_length|apply repeat_forall; lia]. }
+  destruct (rd_submaps (Z.to_nat submaps) floors residues r6) as [[subs r7]|] eqn:Esu; [|discriminate].
+  apply rd_submaps_wf in Esu. destruct Esu as [Ls Fs].
+  inversion H; subst. split; [lia|]. unfold mapping_wf. cbn [m_submaps m_mux m_coupling m_floor m_residue].
+  rewrite !map_length. repeat split; try lia; try tauto.
+  - apply Forall_forall. intros f Hf. apply in_map_iff in Hf. destruct Hf as [p [<- Hp]]. rewrite Forall_forall in Fs. apply Fs in Hp. lia.
+  - apply Forall_forall. intros f Hf. apply in_map_iff in Hf. destruct Hf as [p [<- Hp]]. rewrite Forall_forall in Fs. apply Fs in Hp. lia.
+Qed.
+
+(* ------------------------------------------------------------------ *)
+(* samples returned per packet (Vorbis I spec 4.3.8: from the centre of the
+   previous window to the centre of the current one)                     *)
+(* ------------------------------------------------------------------ *)
+Lemma samples_per_packet c s b :
+  0 <= bs1 c -> 0 <= hs c ->
+  k_pcm b = true -> k_gran b = -1 ->
+  d_ret s = d_cur s -> 0 <= d_ret s ->
+  exists s', dec_blockin c s b = (0, s') /\
+             dec_pcmout s' = (let n := Z.shiftr (bsz c (d_W s) / 4 + bsz c (k_W b) / 4) (hs c) in if 0 <? n then n else 0).
+Proof.
+  intros Hb1 Hhs Hp Hg Hr Hr0. unfold dec_blockin. rewrite Hr.
+  destruct ((d_cur s >? d_cur s) && negb (d_cur s =? -1)) eqn:E0; [lia|].
+  unfold dec_pcmpart. rewrite Hp, Hr.
+  destruct (d_cur s =? -1) eqn:E1; [lia|].
+  set (stp := bsz c (d_W s) / 4 + bsz c (k_W b) / 4).
+  set (prevC := if d_centerW s =? 0 then Z.shiftr (bs1 c) (hs c + 1) else 0).
+  assert (0 <= prevC) as HpC by (unfold prevC; destruct (d_centerW s =? 0); [apply Z.shiftr_nonneg; exact Hb1|lia]).
+  unfold dec_granule. rewrite Hg. change (-1 =? -1) with true. cbn [negb andb].
+  assert (forall g cnt, dec_pcmout {| d_lW := d_W s; d_W := k_W b; d_centerW := prevC; d_cur := prevC + Z.shiftr stp (hs c);
+                                      d_ret := prevC; d_gran := g; d_seq := k_seq b; d_count := cnt; d_eof := d_eof s || k_eof b; d_fresh := true |}
+                        = (if 0 <? Z.shiftr stp (hs c) then Z.shiftr stp (hs c) else 0)) as Hout.
+  { intros g cnt. unfold dec_pcmout. cbn [d_ret d_cur].
+    destruct (0 <? Z.shiftr stp (hs c)) eqn:E;
+      destruct ((prevC >? -1) && (prevC <? prevC + Z.shiftr stp (hs c))) eqn:E2; lia. }
+  match goal with |- context [if ?g =? -1 then _ else _] => destruct (g =? -1) eqn:Eg end;
+    eexists; (split; [reflexivity|apply Hout]).
 Qed.
